@@ -81,6 +81,13 @@ def gen_case(rng):
     by = rng.choice(['label', 'label', 'position'])
     tolmode = rng.choice([None, None, None, 'tol', 'nloc'])
     huge = tolmode is None and gen.make_huge(sp, rng)
+    big53 = set()
+    if tolmode is not None and rng.random() < 0.2:
+        # integer labels beyond 2**53 (nanosecond time stamps, ids): neighbours that a float64 cannot tell apart
+        for d_ in range(nd):
+            if sp["kinds"][d_] == 'i' and (sp.get("ldtypes") or [None] * nd)[d_] in (None, 'int64') and not any(abs(v) > 2 ** 40 for v in sp["labels"][d_]):
+                sp["labels"][d_] = [int(v) + 2 ** 53 for v in sp["labels"][d_]]
+                big53.add(d_)
     idx = []
     kinds = []
     for d in range(nd):
@@ -94,6 +101,8 @@ def gen_case(rng):
             lab = sp["labels"][d]
             def near():
                 base = lab[rng.randrange(len(lab))]
+                if d in big53:
+                    return base + rng.choice([0, 1, -1, 2, -2, 3])          # integer keys: exact whatever the magnitude
                 return base + rng.choice([0, 0.25, -0.25, 0.5, -0.5, 1, -1, 1.5, 3, -3])
             idx.append(near() if ik == 'near' else [near() for _ in range(rng.randint(0, 3))])      # an empty list selects nothing, also with a tolerance
         else:
@@ -214,6 +223,8 @@ def check(case, ctx):
             if nd:
                 jobs.append(("a.take({dim: idx}, indexing='label')", lambda: a.take({d: ix for d, ix in zip(m.dims, idx) if not is_full(ix)}, indexing='label', **kw)))
                 jobs.append(("a.take({pos: idx}, indexing='label')", lambda: a.take({i: ix for i, ix in enumerate(idx) if not is_full(ix)}, indexing='label', **kw)))
+                # dimensions designated by their position counted from the end
+                jobs.append(("a.take({negative pos: idx}, indexing='label')", lambda: a.take({i - nd: ix for i, ix in enumerate(idx) if not is_full(ix)}, indexing='label', **kw)))
 
             def chain():
                 r = a
@@ -221,6 +232,8 @@ def check(case, ctx):
                     if is_full(ix):
                         continue
                     ax = d if not case["chain_by_pos"] else r.dims.index(d)
+                    if case["chain_by_pos"] and case["ellpos"] % 2 and ax != 0:
+                        ax = ax - r.ndim        # the same dimension, counted from the end
                     if ax == 0 and case["chain_by_pos"]:
                         r = r.take(ix, indexing='label', **kw)       # axis=0 is the default
                     else:
